@@ -240,7 +240,7 @@ func init() {
 
 func runC15(c *Ctx) {
 	rng := c.Rng
-	nInputs := c.N(4, 40)
+	nInputs := c.N(4, 240)
 	// inputs per family
 	var images [][]byte
 	for len(images) < nInputs {
